@@ -10,7 +10,7 @@ NAMED = ("record", "enum", "fixed", "error")
 
 IMPORTS = ("From Coq Require Import String.\n"
            "From FA Require Import model.Base model.Varint model.Float model.Value model.Schema model.Codec model.Validate "
-           "model.Write model.Read model.Harness model.Conform.\n"
+           "model.Write model.Read model.Conform.\n"
            "Open Scope Z_scope.\n")
 
 
